@@ -155,6 +155,10 @@ pub enum Hint {
     None,
     TooSmall,
     TooLarge,
+    /// hostile hints: the largest usize, just above a quarter of it, a power of two whose byte count wraps
+    Max,
+    QuarterMax,
+    Pow62,
 }
 
 pub struct TokDe<'a> {
@@ -211,6 +215,9 @@ impl<'de, 'a, 'b> de::Deserializer<'de> for &'b mut TokDe<'a> {
                     Hint::None => None,
                     Hint::TooSmall => Some(n / 2),
                     Hint::TooLarge => Some(n * 3 + 1_000_000),
+                    Hint::Max => Some(usize::MAX),
+                    Hint::QuarterMax => Some(usize::MAX / 4 + 1),
+                    Hint::Pow62 => Some((1usize << 62) + n),
                 };
                 let r = v.visit_seq(TokSeqAccess { de: self, end: Tok::SeqEnd, hint })?;
                 match self.next() {
@@ -357,7 +364,7 @@ fn roundtrip(r: &mut Rec) {
 
 pub fn run(r: &mut Rec) {
     let mut rng = Rng(r.seed ^ 0xC17);
-    let hints = [Hint::Exact, Hint::None, Hint::TooSmall, Hint::TooLarge];
+    let hints = [Hint::Exact, Hint::None, Hint::TooSmall, Hint::TooLarge, Hint::Max, Hint::QuarterMax, Hint::Pow62];
     // values: zero, top digit with zero / non-zero high half, interior zero halves
     let mut vals: Vec<Vec<u64>> = vec![vec![], vec![1], vec![u32::MAX as u64], vec![1 << 32], vec![u64::MAX], vec![0, 1], vec![1, 1], vec![0, 1 << 32], vec![7, 0xdeadbeef],
                                        vec![0, 0, 1], vec![1 << 32, 0, 5], vec![u64::MAX, u32::MAX as u64, 1 << 40, 3]];
